@@ -411,6 +411,8 @@ def shard(tier, i, n, seed):
         check_context_processor(acc)
     if i == 6 % n:
         c01.check_bundled_providers(acc, 'C02')
+    if i == 7 % n:
+        check_url_values(acc)
     acc.extra['hashseed_digest'] = [digest.hexdigest()]
     acc.extra['hashseed_common_cases'] = [ncommon]
     return acc
@@ -431,6 +433,57 @@ def finish(tier, merged, results):
                          'note': 'states = accepted configurations; traces_validated = (function, parameter) pairs compared'}}
 
 
+def check_url_values(acc):
+    """URL bindings of every arity, consumed by a middleware or by the endpoint, which keeps (and scribbles on) what it
+    was given: over every history of three requests each consumer receives exactly the segments of its own request -
+    through the plain WSGI environ and through the development server's parsing of the request line."""
+    import itertools
+    from clastic import Application, Middleware, Route
+    from werkzeug.wrappers import Response
+    from mc import wsgi
+    patterns = [('/docs/<v*>', '/docs', lambda segs: list(segs)), ('/d2/<v*>/end', '/d2', lambda segs: list(segs)),
+                ('/n/<v*int>', '/n', lambda segs: [int(x) for x in segs]), ('/o/<v?>/end', '/o', lambda segs: segs[0] if segs else None),
+                ('/p/<v+>', '/p', lambda segs: list(segs))]
+    choices = {'/docs': [[], ['a'], ['a', 'b;v=2']], '/d2': [[], ['a'], ['a', 'b']], '/n': [[], ['1'], ['1', '22']],
+               '/o': [[], ['x;y=1']], '/p': [['a'], ['a', 'b'], ['report;v=2']]}
+    for (pattern, base, conv), consumer, seam in itertools.product(patterns, ('endpoint', 'middleware'), ('wsgi', 'dev-server')):
+        tail = '/end' if pattern.endswith('/end') else ''
+        for hist in itertools.product(choices[base], repeat=3):
+            got = []
+
+            def keep(v):
+                got.append(list(v) if isinstance(v, list) else v)
+                if isinstance(v, list):
+                    v.append('scribbled-by-an-earlier-request')
+
+            class Mw(Middleware):
+                def request(self, next, v):
+                    keep(v)
+                    return next()
+
+            def ep_v(v):
+                keep(v)
+                return Response('ok')
+            app = Application([Route(pattern, ep_v)]) if consumer == 'endpoint' else \
+                Application([Route(pattern, lambda: Response('ok'), middlewares=[Mw()])])
+            for j, segs in enumerate(hist):
+                path = base + ''.join('/' + x for x in segs) + tail
+                del got[:]
+                if seam == 'dev-server':
+                    res = wsgi.call(app, None, environ=wsgi.dev_server_environ(path, 'GET', safe='/+;='))
+                else:
+                    res = wsgi.call(app, path, 'GET')
+                acc.transitions += 1
+                acc.validated += 1
+                case = {'layer': 'URLV', 'pattern': pattern, 'consumer': consumer, 'seam': seam, 'history': [list(x) for x in hist[:j + 1]]}
+                if res.raised is not None or res.code != 200 or got != [conv(segs)]:
+                    acc.violation('C02:url-value:%s:%s' % (seam, 'multi' if ('*' in pattern or '+' in pattern) else 'single'),
+                                  '%s of %s, request %d of the history (%s, %s): received %r, the path says %r (%s %r)'
+                                  % (consumer, pattern, j + 1, path, seam, got, conv(segs), res.status, res.raised), case)
+                    break
+    acc.outcome('URLV:url')
+
+
 def replay_rebound(case):
     common.setup_repo()
     acc = common.Acc()
@@ -447,6 +500,11 @@ def replay(case):
         common.setup_repo()
         acc = common.Acc()
         c01.check_bundled_providers(acc, 'C02')
+        return (False, acc.violations[0]['desc']) if acc.violations else (True, 'ok')
+    if case.get('layer') == 'URLV':
+        common.setup_repo()
+        acc = common.Acc()
+        check_url_values(acc)
         return (False, acc.violations[0]['desc']) if acc.violations else (True, 'ok')
     if case.get('layer') == 'CP':
         common.setup_repo()
